@@ -7,7 +7,7 @@ import json
 import gen, lang, meta, findings
 
 PROP_FILE = 'Props/C16.v'
-GROUPS = ['imain']
+GROUPS = ['imain', 'bodyform']
 LEAF_LEMMAS = []
 ASSUMPTIONS = ['gringo/clasp contract G1-G6 (DESIGN.md 5.3)']
 T, F = ('true',), ('false',)
